@@ -22,7 +22,15 @@ EXPLANATION = (
     "generators and dispatch tables (values and tested facts per path; no statement positions), including lazy itertools / "
     "functools / operator pipelines and callables (judged where they are iterated / called), objects of private classes of the "
     "module used in place of closures, `except KeyError` / contextlib.suppress exits (a KeyError of table[key] means no entry) and "
-    "staged filters (judged together at the return). Closed caller sets: raw "
+    "staged filters (judged together at the return). A function under a private decorator `@d` / `@d(args)` denotes the wrapper d "
+    "returns: the decorator is executed on the body and wrapper + body are analysed as one function (send, set_anonymity, "
+    "notify_listeners and every followed helper); helpers that moved to another module or to a mixin base class are followed with "
+    "their parameters bound; `self.tunnel_community` / `self.hops` defined as read-only properties over a state-holder object denote "
+    "what their getters return, and methods of a holder whose class is certain (every store of the field is `self.f = Ctor(...)` of one "
+    "class without subclasses) are executed; sizes derived by len() / struct.calcsize / Struct.size / digest_size are folded; "
+    "all((a, b, ..)) / any([..]) over a literal is the and- / or-chain of its elements. Every completing path of Community.__init__ "
+    "on which settings.anonymize was tested truthy either calls set_anonymity(self._prefix, True) on self.endpoint or failed a pure type "
+    "test of self.endpoint. Closed caller sets: raw "
     "endpoint.send inside TunnelEndpoint (or in helpers only send reaches), no `.endpoint.endpoint` / "
     "getattr(endpoint, 'endpoint') reach-under, set_anonymity writers, opt-in in Community.__init__, delivery filter; "
     "Circuit.exit_flags reads the flags of the last hop; find_circuits admits a circuit only if exit_flags is None or "
@@ -77,6 +85,86 @@ def _is_none(e) -> bool:
 
 def _falsy_default(e) -> bool:
     return isinstance(e, ast.Constant) and (e.value is None or e.value is False or (type(e.value) is int and e.value == 0))
+
+
+_DIGEST_SIZES = {"md5": 16, "sha1": 20, "sha224": 28, "sha256": 32, "sha384": 48, "sha512": 64, "sha3_224": 28, "sha3_256": 32,
+                 "sha3_384": 48, "sha3_512": 64, "blake2s": 32, "blake2b": 64}
+
+
+def _fold(repo, module, e, cls=None, depth: int = 8):
+    """
+    The number / bytes / text a constant expression evaluates to (NOCONST when it is not one): literals, module and class constants,
+    arithmetic, and the usual ways to DERIVE a size instead of writing it: len(<constant>), struct.calcsize(fmt), Struct(fmt).size,
+    hashlib.<algorithm>().digest_size.
+    """
+    if e is None or depth <= 0:
+        return NOCONST
+    e = strip_cast(e)
+    v = const_value(e)
+    if v is not NOCONST:
+        return v
+    if isinstance(e, ast.Name):
+        r = repo.resolve_name(module, e.id)
+        if isinstance(r, tuple) and len(r) == 3 and r[0] == "const":
+            return _fold(repo, r[1], r[2], None, depth - 1)
+        return NOCONST
+    if isinstance(e, ast.UnaryOp) and isinstance(e.op, (ast.USub, ast.UAdd)):
+        x = _fold(repo, module, e.operand, cls, depth - 1)
+        return NOCONST if x is NOCONST or not isinstance(x, (int, float)) or isinstance(x, bool) else (-x if isinstance(e.op, ast.USub) else x)
+    if isinstance(e, ast.BinOp):
+        l, r = _fold(repo, module, e.left, cls, depth - 1), _fold(repo, module, e.right, cls, depth - 1)
+        if l is NOCONST or r is NOCONST:
+            return NOCONST
+        try:
+            if isinstance(e.op, ast.Add):
+                return l + r
+            if isinstance(e.op, ast.Sub):
+                return l - r
+            if isinstance(e.op, ast.Mult) and (isinstance(l, int) and isinstance(r, int) or max(abs(l) if isinstance(l, int) else 0, abs(r) if isinstance(r, int) else 0) < 4096):
+                return l * r
+            if isinstance(e.op, ast.FloorDiv):
+                return l // r
+            if isinstance(e.op, ast.LShift) and isinstance(r, int) and 0 <= r < 64:
+                return l << r
+            if isinstance(e.op, ast.BitOr):
+                return l | r
+        except Exception:  # noqa: BLE001
+            return NOCONST
+        return NOCONST
+    if isinstance(e, ast.Call) and not e.keywords and not any(isinstance(a, ast.Starred) for a in e.args):
+        name = (chain(e.func) or "").split(".")[-1]
+        if name == "len" and len(e.args) == 1:
+            x = _fold(repo, module, e.args[0], cls, depth - 1)
+            return len(x) if isinstance(x, (bytes, str, tuple, list)) else NOCONST
+        if name == "calcsize" and len(e.args) == 1:
+            fmt = _fold(repo, module, e.args[0], cls, depth - 1)
+            if isinstance(fmt, (str, bytes)):
+                import struct as _struct
+                try:
+                    return _struct.calcsize(fmt)
+                except _struct.error:
+                    return NOCONST
+        return NOCONST
+    if isinstance(e, ast.Attribute):
+        base = strip_cast(e.value)
+        if isinstance(base, ast.Name):
+            r = repo.resolve_name(module, base.id)
+            if isinstance(r, tuple) and len(r) == 3 and r[0] == "const":
+                return _fold(repo, r[1], ast.Attribute(value=r[2], attr=e.attr, ctx=ast.Load()), None, depth - 1)
+        if isinstance(base, ast.Call) and not base.keywords:
+            name = (chain(base.func) or "").split(".")[-1]
+            if e.attr == "size" and name == "Struct" and len(base.args) == 1:
+                return _fold(repo, module, ast.Call(func=ast.Name(id="calcsize", ctx=ast.Load()), args=[base.args[0]], keywords=[]), cls, depth - 1)
+            if e.attr == "digest_size" and name in _DIGEST_SIZES and len(base.args) <= 1:
+                return _DIGEST_SIZES[name]
+        try:
+            return repo.resolve_const(module, e, cls)
+        except Exception:  # noqa: BLE001
+            return NOCONST
+    if isinstance(e, (ast.Tuple, ast.List)):
+        vals = [_fold(repo, module, x, cls, depth - 1) for x in e.elts]
+        return NOCONST if any(x is NOCONST for x in vals) else (tuple(vals) if isinstance(e, ast.Tuple) else vals)
+    return NOCONST
 
 
 def _mutated(fi, name: str) -> bool:
@@ -655,6 +743,43 @@ def _after_node(cfg, stmt):  # noqa: C901, PLR0911
     raise _Und("where execution continues after a `with suppress(...)` block")
 
 
+_TRANSPARENT_DECORATORS = {"staticmethod", "classmethod", "abstractmethod", "override", "final", "no_type_check", "property",
+                           "cached_property", "overload"}
+
+
+def _transparent_decorator(d) -> bool:
+    """@wraps(f) / @functools.wraps(f): the decorated function itself (only metadata is copied)"""
+    return isinstance(d, ast.Call) and (chain(d.func) or "").split(".")[-1] == "wraps" and len(d.args) == 1 and not d.keywords
+
+
+def _wrapping_decorators(fnode) -> list:
+    """decorators of a def that may replace the function by another one (everything but the marker decorators of the language)"""
+    out = []
+    for d in getattr(fnode, "decorator_list", []):
+        name = (chain(d.func) if isinstance(d, ast.Call) else chain(d)) or ""
+        last = name.split(".")[-1]
+        if last in _TRANSPARENT_DECORATORS or last in ("setter", "getter", "deleter") or _transparent_decorator(d):
+            continue
+        out.append(d)
+    return out
+
+
+def _attribute_stores(ctx) -> dict:
+    """attribute name -> [(function | None, Attribute node)] for every store / delete of an attribute in the repository (built once per run)"""
+    idx = getattr(ctx, "_c07_attribute_stores", None)
+    if idx is None:
+        idx = {}
+        for m in ctx.repo.modules.values():
+            for n in ast.walk(m.tree):
+                if isinstance(n, ast.Attribute) and isinstance(n.ctx, (ast.Store, ast.Del)):
+                    idx.setdefault(n.attr, []).append((ctx.repo.function_of(n), n))
+        try:
+            ctx._c07_attribute_stores = idx
+        except AttributeError:
+            pass
+    return idx
+
+
 class _Interp:
     """Symbolic execution of one function (and of what it calls, as far as `follow` says) on all CFG paths."""
 
@@ -680,10 +805,18 @@ class _Interp:
         self._comp_uid = None               # identity of the comprehension whose element is being included (during on_include)
         self._limports = {}                 # names imported inside a function body: local name -> (module, attribute | None)
         self._rec_classes = {}              # classes of which the executed code made an instance: name -> ClassInfo
+        self._body_ran = False
+        self._bodies = set()                # functions under followed decorators: the wrapper the decorators return calls their body
 
     # ---------------------------------------------------------------- hooks for the client
     def follow(self, fi) -> bool:           # may the body of this callee be executed?
         return True
+
+    def follow_object(self, ci, m) -> bool:  # may method m of an object of class ci held in a field of self be executed?
+        return False
+
+    def follow_decorator(self, fi) -> bool:  # may a decorator of the analysed function be executed (its wrapper analysed as the function)?
+        return getattr(fi, "cls", None) is None and hasattr(fi, "node") and enclosing_function(fi.node) is None
 
     def on_call(self, c, fv, args, kwargs, st):     # -> list[(value, state)] | None
         return None
@@ -934,8 +1067,25 @@ class _Interp:
             t = st.facts.get(k)
         if t is not None:
             return t == p
+        if p and self._contradicts_type(k, st):
+            return False
         st.facts[k] = p
         return True
+
+    @staticmethod
+    def _contradicts_type(k, st) -> bool:
+        """`x is None` and `isinstance(x, T)` cannot both hold for the very same value x (same read, nothing happened in between)"""
+        def inst_of(key):
+            # isinstance(x, <a class named at module level>), not `object` (None is an instance of that one)
+            return key[2][0] if key[0] == "pcall" and key[1] == ("global", "isinstance") and len(key[2]) == 2 \
+                and key[2][1][0] == "global" and key[2][1][1] not in ("object", "NoneType") else None
+        if k[0] == "cmp" and k[1] == "is" and _NONE in (k[2], k[3]):
+            x = k[3] if k[2] == _NONE else k[2]
+            return any(pol and inst_of(key) == x for key, pol in st.facts.items())
+        x = inst_of(k)
+        if x is not None and x != _NONE:
+            return any(pol and key[0] == "cmp" and key[1] == "is" and {key[2], key[3]} == {x, _NONE} for key, pol in st.facts.items())
+        return False
 
     # ---------------------------------------------------------------- expressions: list of (value, state)
     def ev_seq(self, exprs, st):
@@ -968,7 +1118,7 @@ class _Interp:
         if isinstance(e, ast.Attribute):
             out = []
             for b, s in self.ev(e.value, st):
-                getter = self.record_property(b, e.attr)
+                getter = self.record_property(b, e.attr) or self.object_property(b, e.attr)
                 if getter is not None:
                     out.extend(self.invoke(getter.node, b, [], {}, s, e))
                 else:
@@ -1603,6 +1753,9 @@ class _Interp:
         if tag == "closure":
             return self.invoke(fv[1], None, args, kwargs, st, c, self.cenv.get(fv[2]) if len(fv) > 2 else None)
         if tag == "func":
+            if id(fv[1].node) in self._bodies:
+                self._body_ran = self._body_ran or fv[1] is self.top
+                return self.invoke(fv[1].node, None, args, kwargs, st, c)      # the body a decorator's wrapper calls
             if self.follow(fv[1]):
                 return self.invoke(fv[1].node, None, args, kwargs, st, c)
             return self.on_unknown_call(c, fv, args, kwargs, st)
@@ -1622,7 +1775,7 @@ class _Interp:
             if made is not None:
                 return made
             if hasattr(target, "node") and hasattr(target, "qualname") and not hasattr(target, "methods") and self.follow(target):
-                return self.invoke(target.node, None, args, kwargs, st, c)
+                return self.invoke_named(target, None, args, kwargs, st, c)
             return self.on_unknown_call(c, fv, args, kwargs, st)
         if tag == "attr":
             recv, name = fv[1], fv[2]
@@ -1631,8 +1784,13 @@ class _Interp:
                 if m is not None and self.follow(m):
                     decs = m.decorator_names()
                     if "staticmethod" in decs:
-                        return self.invoke(m.node, None, args, kwargs, st, c)
-                    return self.invoke(m.node, recv, args, kwargs, st, c)
+                        return self.invoke_named(m, None, args, kwargs, st, c)
+                    return self.invoke_named(m, recv, args, kwargs, st, c)
+            oc = self.class_of(recv) if recv[0] == "attr" else None
+            if oc is not None and oc is not self.cls:
+                m = oc.lookup(name)
+                if m is not None and not ({"property", "classmethod", "cached_property"} & set(m.decorator_names())) and self.follow_object(oc, m):
+                    return self.invoke_named(m, None if "staticmethod" in m.decorator_names() else recv, args, kwargs, st, c)
             if recv[0] == "global" and not kwargs is None:
                 ci = self.repo.resolve_name(st.frames[-1].fi.module, recv[1])
                 m = ci.lookup(name) if hasattr(ci, "lookup") and hasattr(ci, "methods") else None
@@ -1713,6 +1871,27 @@ class _Interp:
             return [(("filtered", args[0], args[1], c), st)]
         if name == "map" and len(args) >= 2 and not kwargs and args[0][0] in _CALLABLE_TAGS:
             return [(("mapped", args[0], tuple(args[1:]), c), st)]
+        if name in ("all", "any") and len(args) == 1 and not kwargs and args[0][0] in ("tuple", "list"):
+            # all((a, b, c)) / any([a, b, c]) over a literal whose elements are already evaluated: the and- / or-chain of their truth values
+            stop = name == "any"            # the truth value of an element that decides the result
+            out, pending = [], [st]
+            for v in args[0][1]:
+                nxt = []
+                for s in pending:
+                    t = self.truth(v, s)
+                    if t is None:
+                        s2 = s.fork()
+                        if self.assume(v, stop, s2):
+                            out.append((("const", stop), s2))
+                        if self.assume(v, not stop, s):
+                            nxt.append(s)
+                    elif t == stop:
+                        out.append((("const", stop), s))
+                    else:
+                        nxt.append(s)
+                pending = nxt
+            out.extend((("const", not stop), s) for s in pending)
+            return out
         if name in _PURE_BUILTINS or name in _SAME_ELEMENTS:
             return [(("pcall", ("global", name), tuple(args), st.epoch), st)]
         return None
@@ -1759,6 +1938,64 @@ class _Interp:
         if not hasattr(ci, "methods") or not hasattr(ci, "base_names"):
             return False
         return self.plain_record_class(ci) or self.plain_class(ci)
+
+    def field_class(self, attr: str):
+        """
+        The class of the object held in self.<attr> when that is certain: every store to an attribute of that name on self (in the
+        class of self, its bases and subclasses) is `self.<attr> = Ctor(...)` of one and the same repository class that nobody
+        subclasses, and nothing stores to that attribute name through another base expression.
+        """
+        key = ("field", attr)
+        if key in self._globals:
+            return self._globals[key]
+        found = None
+        ok = self.cls is not None
+        related = set()
+        if ok:
+            related = {id(c.node) for c in self.cls.mro()} | {id(c.node) for c in self.cls.all_subclasses()}
+        n_stores = 0
+        for fi, a in (_attribute_stores(self.ctx).get(attr, ()) if ok else ()):
+            on_self = isinstance(a.value, ast.Name) and a.value.id == "self" and fi is not None and fi.cls is not None \
+                and fi.params()[:1] == ["self"] and enclosing_function(fi.node) is None
+            if on_self and id(fi.cls.node) not in related:
+                continue                    # the field of that name of an unrelated class
+            stmt = enclosing_stmt(a)
+            val = getattr(stmt, "value", None)
+            single = (isinstance(stmt, ast.Assign) and len(stmt.targets) == 1 and stmt.targets[0] is a) \
+                or (isinstance(stmt, ast.AnnAssign) and stmt.target is a)
+            val = strip_cast(val) if val is not None else None
+            ci = self.repo.resolve_class_expr(fi.module, val.func) if on_self and single and isinstance(val, ast.Call) else None
+            if ci is None or (found is not None and ci is not found):
+                ok = False
+                break
+            found = ci
+            n_stores += 1
+        if not ok or found is None or not n_stores or found.all_subclasses() \
+                or {"__getattr__", "__getattribute__", "__setattr__", "__new__"} & {n for c in found.mro() for n in c.methods}:
+            found = None
+        self._globals[key] = found
+        return found
+
+    def class_of(self, v):
+        """ClassInfo of the object value v when it is certain (self, or an object held in a field of self), else None"""
+        b = _strip(v)
+        if b == _SELF:
+            return self.cls
+        if b[0] == "attr" and b[1] == _SELF and self.cls is not None:
+            return self.field_class(b[2])
+        return None
+
+    def object_property(self, base, name):
+        """the getter when `base.name` reads a property of self / of an object held in a field of self, and the getter may be followed"""
+        if base[0] not in ("param", "attr"):
+            return None
+        ci = self.class_of(base)
+        m = ci.lookup(name) if ci is not None else None
+        if m is None or not ({"property", "cached_property", "functools.cached_property"} & set(m.decorator_names())) or _is_generator(m.node):
+            return None
+        if ci is self.cls:
+            return m if self.follow(m) else None
+        return m if self.follow_object(ci, m) else None
 
     def record_property(self, base, name):
         """the getter when `base.name` reads a property of an object the executed code made itself"""
@@ -1984,7 +2221,7 @@ class _Interp:
             self._raised.append(st)
             return []
         if isinstance(s, (ast.FunctionDef, ast.AsyncFunctionDef)):
-            st.frames[-1].env[s.name] = self.closure(s, st) if not s.decorator_list else self.unknown()
+            st.frames[-1].env[s.name] = self.closure(s, st) if all(_transparent_decorator(d) for d in s.decorator_list) else self.unknown()
             return [st]
         if isinstance(s, ast.ClassDef):
             st.frames[-1].env[s.name] = self.unknown()
@@ -2276,6 +2513,92 @@ class _Interp:
                     work.append((v, s2 if i == len(targets) - 1 else s2.fork()))
         return out
 
+    def followed_decorators(self, fi=None) -> list:
+        """
+        Decorators of a function that are plain functions of the repository the client lets us execute: `@d` / `@d(args)` makes the
+        name denote what d returns - usually a wrapper that runs a guard and calls the decorated body.
+        """
+        fi = self.top if fi is None else fi
+        node = fi.node
+        if isinstance(node, ast.Lambda):
+            return []
+        key = ("decorators", id(node))
+        if key in self._globals:
+            return self._globals[key]
+        out = []
+        for d in _wrapping_decorators(node):
+            f = d.func if isinstance(d, ast.Call) else d
+            target = self.repo.resolve_name(fi.module, f.id) if isinstance(f, ast.Name) else None
+            plain = target is not None and hasattr(target, "node") and hasattr(target, "qualname") and not hasattr(target, "methods")
+            if plain and self.follow_decorator(target):
+                out.append(d)
+            elif not plain:
+                out = []                    # decorators that are not plain repository functions: as before (the body is analysed)
+                break
+        self._globals[key] = out
+        return out
+
+    def decorated_value(self, fi, decs, st):
+        """[(value, state)]: what the name of the decorated function fi denotes - the decorators applied (innermost first) to its body"""
+        lam = ast.Lambda(args=ast.arguments(posonlyargs=[], args=[], kwonlyargs=[], kw_defaults=[], defaults=[], vararg=None, kwarg=None),
+                         body=ast.Constant(value=None))
+        st.frames.append(_Frame(_LambdaInfo(lam, fi)))      # decorator expressions are evaluated at class / module level of fi's module
+        self._bodies.add(id(fi.node))
+        vals = [(("func", fi), st)]
+        for d in reversed(decs):
+            nxt = []
+            for v, s in vals:
+                n_ev = len(s.events)
+                for dv, s2 in self.ev(d, s):
+                    call = ast.copy_location(ast.Call(func=d, args=[], keywords=[]), d)
+                    for w, s3 in self.call(call, dv, [v], {}, s2):
+                        if len(s3.events) != n_ev:
+                            raise _Und(f"a decorator of {fi.qualname} has effects of its own")
+                        if w[0] not in ("closure", "func", "partial"):
+                            raise _Und(f"what the decorators of {fi.qualname} return is not a function the analysis can enter")
+                        nxt.append((w, s3))
+            vals = nxt
+        popped = set()
+        for _, s in vals:
+            if id(s) not in popped:
+                popped.add(id(s))
+                s.frames.pop()
+        return vals
+
+    def run_decorated(self, decs):
+        """
+        Analyse what the decorated name denotes: the decorators are executed on the undecorated function and the value they return is
+        called with the parameters of the analysed function - wrapper and body are analysed as one function.
+        """
+        top = self.top
+        a = top.node.args
+        if a.vararg is not None or a.kwarg is not None or a.kwonlyargs:
+            raise _Und("decorated function with * / ** / keyword-only parameters")
+        lam = ast.Lambda(args=ast.arguments(posonlyargs=[], args=[], kwonlyargs=[], kw_defaults=[], defaults=[], vararg=None, kwarg=None),
+                         body=ast.Constant(value=None))
+        st = _St()
+        st.frames = [_Frame(_LambdaInfo(lam, top))]
+        args = [("param", x.arg) for x in a.posonlyargs + a.args]
+        outs = []
+        for w, s in self.decorated_value(top, decs, st):
+            call = ast.copy_location(ast.Call(func=ast.Name(id=top.name, ctx=ast.Load()), args=[], keywords=[]), top.node)
+            for _, s2 in self.call(call, w, list(args), {}, s):
+                outs.append(("return", s2))
+        outs.extend(("raise", s) for s in self._raised)
+        if not self._body_ran:
+            raise _Und(f"the decorators of {top.qualname} never run the decorated body")
+        return outs
+
+    def invoke_named(self, m, recv, args, kwargs, st, c):
+        """call of the function / method the name of m denotes: its body, or - under followed decorators - the wrapper they return"""
+        decs = self.followed_decorators(m)
+        if not decs or id(m.node) in {id(f.fi.node) for f in st.frames if f.fi is not None}:
+            return self.invoke(m.node, recv, args, kwargs, st, c)
+        out = []
+        for w, s in self.decorated_value(m, decs, st):
+            out.extend(self.call(c, w, ([recv] if recv is not None else []) + list(args), kwargs, s))
+        return out
+
     def start(self):
         st = _St()
         fr = _Frame(self.top)
@@ -2284,7 +2607,8 @@ class _Interp:
         st.frames = [fr]
         saved, self._raised = self._raised, []
         try:
-            outs = self.run(st)
+            decs = self.followed_decorators()
+            outs = self.run(st) if not decs else self.run_decorated(decs)
         except _Und:
             raise
         except AnalysisError as e:
@@ -2339,6 +2663,7 @@ class _SendPaths(_Interp):
         if len(ps) < 3:
             raise _Und("TunnelEndpoint.send does not take (self, address, packet)")
         self.addr, self.packet = ("param", ps[1]), ("param", ps[2])
+        self._canon = {}
         try:
             self.ready_value = self.repo.resolve_const(self.repo.module(TUNNEL), ast.Name(id="CIRCUIT_STATE_READY", ctx=ast.Load()))
         except Exception:  # noqa: BLE001
@@ -2346,9 +2671,42 @@ class _SendPaths(_Interp):
 
     # ---- what the interpreter may enter
     def follow(self, fi) -> bool:
-        if fi.cls is None and fi.module is self.top.module and enclosing_function(fi.node) is None:
-            return True         # a plain function of the same module
-        return fi.cls is self.te and fi.node is not self.top.node and fi.name in self.te.methods and self.te.methods[fi.name] is fi
+        if fi.cls is None and enclosing_function(fi.node) is None:
+            return True         # a plain function of the repository (of this module, or one that moved to another module)
+        if fi.node is self.top.node or fi.cls is None:
+            return False
+        if fi.cls is self.te:
+            return fi.name in self.te.methods and self.te.methods[fi.name] is fi
+        # a method TunnelEndpoint inherits from a (mixin) base class: the one attribute lookup on self finds
+        return any(c is fi.cls for c in self.te.mro()) and self.te.lookup(fi.name) is fi
+
+    def follow_object(self, ci, m) -> bool:
+        return True             # methods / properties of a state-holder object kept in a field of the endpoint (its class is certain)
+
+    def canon(self, name: str):
+        """
+        The value `self.<name>` denotes: the attribute itself, or - when TunnelEndpoint defines it as a read-only property over a
+        state holder - the value its getter returns (one value, no effects, no tests).
+        """
+        got = self._canon.get(name)
+        if got is None:
+            got = ("attr", _SELF, name)
+            m = self.te.lookup(name)
+            if m is not None and {"property", "cached_property", "functools.cached_property"} & set(m.decorator_names()):
+                st = _St()
+                st.frames = [_Frame(self.top, {p: ("param", p) for p in self.top.params()})]
+                saved, self._raised = self._raised, []
+                n_ev = len(self.all_events)
+                try:
+                    outs = self.invoke(m.node, _SELF, [], {}, st, m.node) if self.follow(m) else []
+                    raised = list(self._raised)
+                finally:
+                    self._raised = saved
+                if len(outs) != 1 or raised or outs[0][1].events or outs[0][1].facts or len(self.all_events) != n_ev:
+                    raise _Und(f"TunnelEndpoint.{name} is a property whose value depends on tests / has effects")
+                got = _strip(outs[0][0])
+            self._canon[name] = got
+        return got
 
     def read_field(self, base, name, st):
         if _strip(base) == _SELF:
@@ -2361,14 +2719,41 @@ class _SendPaths(_Interp):
     # ---- the anonymity switch of this packet
     def named_const(self, v):
         """a module constant used by name stands for its value"""
-        if type(v) is tuple and len(v) == 2 and v[0] == "global":
+        cv = self.fold_value(v)
+        return ("const", cv) if cv is not NOCONST and type(cv) is int else v
+
+    def fold_value(self, v, depth: int = 6):
+        """the constant a symbolic value built from literals, named constants, arithmetic, len() and derived sizes evaluates to"""
+        if type(v) is not tuple or not v or depth <= 0:
+            return NOCONST
+        v = _strip(v)
+        if v[0] == "const":
+            return v[1]
+        mod = self.top.module
+        ch = _vchain(v)
+        if ch is not None and v[0] in ("global", "attr") and all(p.isidentifier() for p in ch.split(".")):
             try:
-                cv = self.repo.resolve_const(self.top.module, ast.Name(id=v[1], ctx=ast.Load()))
+                return _fold(self.repo, mod, ast.parse(ch, mode="eval").body)
             except Exception:  # noqa: BLE001
-                return v
-            if cv is not NOCONST and type(cv) is int:
-                return ("const", cv)
-        return v
+                return NOCONST
+        if v[0] == "binop" and len(v) == 4:
+            l, r = self.fold_value(v[2], depth - 1), self.fold_value(v[3], depth - 1)
+            if l is NOCONST or r is NOCONST:
+                return NOCONST
+            ops = {"Add": ast.Add, "Sub": ast.Sub, "Mult": ast.Mult, "FloorDiv": ast.FloorDiv, "LShift": ast.LShift, "BitOr": ast.BitOr}
+            if v[1] not in ops:
+                return NOCONST
+            try:
+                return _fold(self.repo, mod, ast.BinOp(left=ast.Constant(value=l), op=ops[v[1]](), right=ast.Constant(value=r)))
+            except Exception:  # noqa: BLE001
+                return NOCONST
+        if v[0] == "pcall" and v[1] in (("global", "len"), ("global", "calcsize"), ("attr", ("global", "struct"), "calcsize")) and len(v[2]) == 1:
+            x = self.fold_value(v[2][0], depth - 1)
+            if x is NOCONST:
+                return NOCONST
+            name = "len" if v[1] == ("global", "len") else "calcsize"
+            return _fold(self.repo, mod, ast.Call(func=ast.Name(id=name, ctx=ast.Load()), args=[ast.Constant(value=x)], keywords=[]))
+        return NOCONST
 
     def is_key(self, v) -> bool:
         if v[0] != "slice":
@@ -2440,13 +2825,13 @@ class _SendPaths(_Interp):
     # ---- the circuit
     def find_ok(self, L) -> bool:
         fv, args, kwargs = L[2], L[3], dict(L[4]) if L[4] is not None else None
-        if kwargs is None or _STAR in args or fv != ("attr", _T_OVERLAY, "find_circuits"):
+        if kwargs is None or _STAR in args or fv != ("attr", self.canon("tunnel_community"), "find_circuits"):
             return False
         sig = _Source.SIG
         ef, hp, ct = (_call_arg(args, kwargs, sig.index(n), n) for n in ("exit_flags", "hops", "ctype"))
         ef, hp, ct = _strip(ef) if ef else None, _strip(hp) if hp else None, _strip(ct) if ct else None
         ef_ok = ef is not None and ef[0] in ("list", "tuple", "set") and any(_vchain(x) in ("PEER_FLAG_EXIT_IPV8", "tunnel.PEER_FLAG_EXIT_IPV8") for x in ef[1])
-        return bool(ef_ok and hp == ("attr", _SELF, "hops") and (ct is None or _vchain(ct) in ("CIRCUIT_TYPE_DATA", "tunnel.CIRCUIT_TYPE_DATA")))
+        return bool(ef_ok and hp == self.canon("hops") and (ct is None or _vchain(ct) in ("CIRCUIT_TYPE_DATA", "tunnel.CIRCUIT_TYPE_DATA")))
 
     def lst_ok(self, L, depth: int = 6) -> bool:
         if depth <= 0:
@@ -2480,10 +2865,32 @@ class _SendPaths(_Interp):
             return True
         return v[0] == "const" and self.ready_value is not NOCONST and isinstance(v[1], type(self.ready_value)) and v[1] == self.ready_value
 
+    def only_ready(self, v, depth: int = 3) -> bool:
+        """a non-empty literal tuple / list / set / frozenset (possibly a module constant) whose every element is CIRCUIT_STATE_READY"""
+        if depth <= 0 or type(v) is not tuple or not v:
+            return False
+        if v[0] in ("tuple", "list", "set"):
+            return bool(v[1]) and all(self.is_ready_const(x) for x in v[1])
+        if v[0] == "pcall" and v[1] in (("global", "frozenset"), ("global", "set"), ("global", "tuple"), ("global", "list")) and len(v[2]) == 1:
+            return self.only_ready(v[2][0], depth - 1)
+        if v[0] == "global" and len(v) == 2:
+            r = self.repo.resolve_name(self.top.module, v[1])
+            expr = r[2] if isinstance(r, tuple) and len(r) == 3 and r[0] == "const" else None
+            for _ in range(2):
+                if isinstance(expr, ast.Call) and chain(expr.func) in ("frozenset", "set", "tuple", "list") and len(expr.args) == 1 and not expr.keywords:
+                    expr = expr.args[0]
+            if isinstance(expr, (ast.Tuple, ast.List, ast.Set)) and expr.elts:
+                mod = r[1]
+                vals = [_fold(self.repo, mod, x) for x in expr.elts]
+                return self.ready_value is not NOCONST and all(x is not NOCONST and type(x) is type(self.ready_value) and x == self.ready_value for x in vals)
+        return False
+
     def ready(self, c, facts) -> bool:
         want = ("attr", c, "state")
 
         def says(k, pol, who) -> bool:
+            if pol and k[0] == "cmp" and k[1] == "in" and k[2] == who and self.only_ready(k[3]):
+                return True         # membership in a collection that holds nothing but READY
             return pol and k[0] == "cmp" and k[1] == "eq" and ((k[2] == who and self.is_ready_const(k[3])) or (k[3] == who and self.is_ready_const(k[2])))
         if any(says(_strip(k), pol, want) for k, pol in facts):
             return True
@@ -2571,7 +2978,7 @@ class _SendPaths(_Interp):
             vals = [_call_arg(args, kwargs, i, n) for i, n in enumerate(("target", "circuit_id", "dest_address", "source_address", "data"))]
             target, cid, dest, origin, _ = [_strip(v) if v is not None else None for v in vals]
             why = []
-            if recv != _T_OVERLAY:
+            if recv != self.canon("tunnel_community"):
                 why.append("receiver")
             circ = None
             if target is not None and target[0] == "attr" and target[2] == "address" and target[1][0] == "attr" and target[1][2] == "hop":
@@ -2605,7 +3012,8 @@ class _SendPaths(_Interp):
                 self.impure(st)
                 return [(_NONE, st)]
             if name in ("popleft", "pop"):
-                self.event(st, "DRAIN", c, self.queue_nonempty(recv, facts) or _index_error_caught(c), "the queue is not known to be non-empty")
+                self.event(st, "DRAIN", c, self.queue_nonempty(recv, facts) or _index_error_caught(c) or _count_bounded_drain(st.frames[-1].fi, c),
+                           "the queue is not known to be non-empty")
                 self.impure(st)
                 return [(("qitem", self.uid()), st)]
             if name in ("copy", "count", "index", "__len__"):
@@ -2623,6 +3031,19 @@ class _SendPaths(_Interp):
         return None
 
 
+def _endpoint_follow(te, top, fi) -> bool:
+    """
+    What the path analyses of a TunnelEndpoint method may enter: the other methods of the endpoint (its own or inherited from a mixin
+    base - the one attribute lookup on self finds) and plain functions of the repository (a block that moved out of the class and
+    takes the object); never send itself (judged by its own rule).
+    """
+    if fi.node is top.node or fi.name == "send":
+        return False
+    if fi.cls is None:
+        return enclosing_function(fi.node) is None
+    return any(c is fi.cls for c in te.mro()) and te.lookup(fi.name) is fi
+
+
 class _TablePaths(_Interp):
     """TunnelEndpoint.set_anonymity on symbolic paths: what is written into the anonymity table, on which paths."""
 
@@ -2631,7 +3052,7 @@ class _TablePaths(_Interp):
         self.te = te
 
     def follow(self, fi) -> bool:
-        return fi.cls is self.te and fi.node is not self.top.node and fi.name != "send"
+        return _endpoint_follow(self.te, self.top, fi)
 
     def read_field(self, base, name, st):
         if _strip(base) == _SELF and name == "settings":
@@ -2689,7 +3110,7 @@ class _DeliverPaths(_Interp):
         self.hits = []
 
     def follow(self, fi) -> bool:
-        return fi.cls is self.te and fi.node is not self.top.node and fi.name != "send"
+        return _endpoint_follow(self.te, self.top, fi)
 
     def is_anon(self, v, listener) -> bool:
         while v[0] == "truth":
@@ -2824,7 +3245,10 @@ class _FindPaths(_Interp):
         self.includes = []      # (node, function, element value, facts)
 
     def follow(self, fi) -> bool:
-        return fi.cls is not None and fi.node is not self.top.node and _is_getter(fi)
+        if fi.node is self.top.node or (fi.cls is None and enclosing_function(fi.node) is not None):
+            return False
+        # getters, and helpers / generators (methods, or plain functions taking the object) that only read, test and yield
+        return _is_getter(fi) or _is_reader(fi)
 
     def include(self, node, value, st) -> None:
         if value[0] not in ("elem", "sub", "loopvar"):
@@ -2959,6 +3383,42 @@ def _circuit_filter(ctx, fi):  # noqa: C901, PLR0912
         sites[id(node)][2].append(f)
         sites[id(node)][3].append(h)
     return [(node, hf, worst(fs), worst(hs)) for node, hf, fs, hs in sites.values()]
+
+
+def _count_bounded_drain(fi, c) -> bool:
+    """
+    The pop sits directly in the body of `for ... in range(len(self.send_queue))` (the count is taken once, when the loop starts), is
+    executed at most once per iteration (no inner loop around it) and is the only statement of the loop that removes items from the
+    queue or rebinds it: at most as many items are taken as the queue held when the loop began.
+    """
+    if isinstance(fi, _LambdaInfo) or not hasattr(fi, "node"):
+        return False
+    loop = None
+    for a in ancestors(c):
+        if isinstance(a, (ast.FunctionDef, ast.AsyncFunctionDef, ast.Lambda, ast.ListComp, ast.SetComp, ast.DictComp, ast.GeneratorExp)):
+            return False
+        if isinstance(a, (ast.For, ast.AsyncFor, ast.While)):
+            loop = a
+            break
+    if not isinstance(loop, ast.For) or not any(_inside(c, st) for st in loop.body):
+        return False
+    it = strip_cast(loop.iter)
+    if not (isinstance(it, ast.Call) and chain(it.func) == "range" and len(it.args) == 1 and not it.keywords):
+        return False
+    ln = strip_cast(it.args[0])
+    if not (isinstance(ln, ast.Call) and chain(ln.func) == "len" and len(ln.args) == 1 and not ln.keywords
+            and _achain(fi, ln.args[0]) == "self.send_queue"):
+        return False
+    for st in loop.body:
+        for n in ast.walk(st):
+            if isinstance(n, ast.Call) and n is not c and isinstance(n.func, ast.Attribute) and _achain(fi, n.func.value) == "self.send_queue" \
+                    and n.func.attr in _MUTATORS | {"popleft", "rotate"} - {"append", "extend", "insert", "add", "update"}:
+                return False
+            if isinstance(n, ast.Attribute) and isinstance(n.ctx, (ast.Store, ast.Del)) and n.attr == "send_queue":
+                return False
+            if isinstance(n, (ast.Subscript,)) and isinstance(n.ctx, ast.Del) and _achain(fi, n.value) == "self.send_queue":
+                return False
+    return True
 
 
 def _index_error_caught(node) -> bool:
@@ -3291,6 +3751,9 @@ def rule_send(ctx: Ctx) -> None:
         err = e
     except (IndexError, KeyError, AttributeError, TypeError, ValueError) as e:
         err = AnalysisError(f"anchor-lost: reviewed shape of TunnelEndpoint.send ({type(e).__name__})")
+    if err is None and not rec.bad and _wrapping_decorators(fi.node):
+        # `send` denotes what its decorators return: the shape of the body alone decides nothing, wrapper and body are judged on paths
+        err = AnalysisError("TunnelEndpoint.send is wrapped by decorators")
     if err is None and not rec.bad and not _FORCE_PATHS:
         rec.replay()
         return
@@ -3366,7 +3829,7 @@ def _bounded_deque(repo, te, fi, v, depth: int = 3) -> bool:
     parts = _call_parts(repo, fi, v)
     if parts is not None and (chain(parts[0]) or "").split(".")[-1] == "deque":
         ml = parts[1][1] if len(parts[1]) > 1 else parts[2].get("maxlen")
-        mlv = repo.resolve_const(fi.module, ml, fi.cls) if ml is not None else None
+        mlv = _fold(repo, fi.module, ml, fi.cls) if ml is not None else None
         return isinstance(mlv, int) and not isinstance(mlv, bool) and mlv > 0
     ch = chain(v.func) or ""
     if depth > 0 and isinstance(v.func, ast.Name):
@@ -3530,6 +3993,12 @@ def _used_only_by(ctx, name: str, own, entered: set) -> bool:
                 continue
             if any(a is own for a in ancestors(n)) or _in_annotation(n):
                 continue
+            if isinstance(n, ast.alias):
+                continue                    # an import only brings the name into a module: every use of it there is a mention judged here
+            par = parent(n)
+            if isinstance(par, ast.ClassDef) and any(n is b for b in par.bases) and par.name == "TunnelEndpoint" \
+                    and ctx.repo.try_cls("TunnelEndpoint", EP) is not None and ctx.repo.cls("TunnelEndpoint", EP).node is par:
+                continue                    # a private mixin base of TunnelEndpoint itself: its methods are methods of the endpoint
             f = ctx.repo.function_of(n)
             if f is not None and id(f.node) in entered:
                 continue
@@ -3543,19 +4012,25 @@ def _raw_sites_elsewhere(ctx, te) -> list:
     function of the same module that send uses in place of a closure: [(function, call, ok)]. ok: every execution of the site was
     judged a proper RAW effect, and nothing but send (and what send runs) can get at that class / function.
     """
-    mod = ctx.repo.module(EP)
-    if not (set(mod.classes) - {te.name}) and not mod.functions:
-        return []
     verdict, _ = _send_symbolic(ctx)
     if verdict is None:
         return []
     out = {}
     for kind, sfi, node, ok, _why, _facts in verdict.sites:
-        if kind != "RAW" or isinstance(sfi, _LambdaInfo) or sfi.cls is te or enclosing_function(sfi.node) is not None:
+        if kind != "RAW" or isinstance(sfi, _LambdaInfo) or sfi.cls is te:
             continue
-        owner = sfi.cls if sfi.cls is not None else sfi
-        private = owner.name.startswith("_") and not owner.name.startswith("__")
-        closed = private and owner.module is mod and _used_only_by(ctx, owner.name, owner.node, verdict.entered)
+        outer = sfi
+        while enclosing_function(outer.node) is not None:
+            outer = ctx.repo.info(enclosing_function(outer.node))       # a closure (e.g. the wrapper a private decorator returns): judged with its owner
+        if outer.cls is te:
+            continue
+        owner = outer.cls if outer.cls is not None else outer
+        base = owner.module.relpath.rsplit("/", 1)[-1]
+        private = (owner.name.startswith("_") and not owner.name.startswith("__")) or (base.startswith("_") and not base.startswith("__"))
+        closed = private and _used_only_by(ctx, owner.name, owner.node, verdict.entered)
+        if closed and outer.cls is not None and any(c is outer.cls for c in te.mro()):
+            # a method the endpoint inherits from a private mixin: like a private helper method, only send (and what it runs) may mention it
+            closed = outer.name.startswith("_") and not outer.name.startswith("__") and _referenced_only_from(ctx, te, outer, verdict.entered)
         prev = out.get(id(node))
         out[id(node)] = (sfi, node, bool(ok and closed and (prev is None or prev[2])))
     return list(out.values())
@@ -3716,6 +4191,8 @@ def _delivery_filter(ctx: Ctx, nl) -> None:
                     cur = cur + _edge_facts(nl, node, lab)
             ok = ok and seen_site
         judged[id(c)] = (nl, c, ok, [str(f) for f in facts])
+    if _wrapping_decorators(nl.node):
+        judged = {}             # notify_listeners denotes what its decorators return: wrapper and body are judged together on paths
     if not judged or not all(j[2] for j in judged.values()) or _FORCE_PATHS:
         # the filter may live in a helper / generator / closure / filter(): decide on symbolic paths
         try:
@@ -3757,6 +4234,11 @@ def _reaches_call(repo, fi, name: str, depth: int = 4, seen=None) -> bool:
             m = fi.cls.lookup(c.func.attr)
             if m is not None and _reaches_call(repo, m, name, depth - 1, seen):
                 return True
+        if isinstance(c.func, ast.Name):
+            g = repo.resolve_name(fi.module, c.func.id)
+            if g is not None and hasattr(g, "node") and hasattr(g, "qualname") and not hasattr(g, "methods") \
+                    and _reaches_call(repo, g, name, depth - 1, seen):
+                return True
     return False
 
 
@@ -3772,6 +4254,29 @@ def _is_getter(fi) -> bool:
     return True
 
 
+def _is_reader(fi) -> bool:
+    """
+    A function / generator that only reads: no stores into objects, no await / global / nonlocal; its calls are pure builtins, pure
+    methods of containers (values(), items(), get() ...) or calls of other methods / plain functions (asked about in turn when followed).
+    """
+    for n in ast.walk(fi.node):
+        if isinstance(n, ast.Call):
+            ch = chain(n.func) or ""
+            if ch in _PURE_BUILTINS | {"cast", "bool", "getattr", "next", "iter", "list", "tuple", "sorted", "reversed"}:
+                continue
+            if isinstance(n.func, ast.Attribute) and n.func.attr in _PURE_METHODS:
+                continue
+            if isinstance(n.func, ast.Name) or (isinstance(n.func, ast.Attribute) and isinstance(n.func.value, ast.Name)
+                                                and n.func.value.id in ("self", "cls")):
+                continue
+            return False
+        if isinstance(n, (ast.Attribute, ast.Subscript)) and isinstance(n.ctx, (ast.Store, ast.Del)):
+            return False
+        if isinstance(n, (ast.Await, ast.Global, ast.Nonlocal)):
+            return False
+    return True
+
+
 class _OptInPaths(_Interp):
     """An overlay constructor on symbolic paths: every set_anonymity call it makes (directly, in helpers, in closures)."""
 
@@ -3780,8 +4285,9 @@ class _OptInPaths(_Interp):
         self.hits = []
 
     def follow(self, fi) -> bool:
-        if fi.cls is None or fi.node is self.top.node:
+        if fi.node is self.top.node or (fi.cls is None and enclosing_function(fi.node) is not None):
             return False
+        # methods, and plain functions of any module that take the object (a block of the constructor that moved out of the class)
         return _reaches_call(self.repo, fi, "set_anonymity") or _is_getter(fi)
 
     def on_call(self, c, fv, args, kwargs, st):
@@ -3791,9 +4297,57 @@ class _OptInPaths(_Interp):
                               "a1": _strip(a1) if a1 else None, "prefix": _strip(self.read_attr(_SELF, "_prefix", st)),
                               "anon": _strip(self.read_attr(_SELF, "anonymize", st)),
                               "facts": tuple((_strip(k), p) for k, p in st.facts.items())})
+            st.effects.append(("SET_ANONYMITY", self.hits[-1]["recv"] == _T_SOCKET and self.hits[-1]["a0"] is not None
+                               and self.hits[-1]["a0"] == self.hits[-1]["prefix"], self.hits[-1]["a1"]))
             st.epoch += 1
             return [(_NONE, st)]
         return None
+
+
+def _endpoint_type_test(k) -> bool:
+    """the tested value is a pure type test of self.endpoint: isinstance / hasattr / callable(getattr) / type(...) is - nothing about its state"""
+    def of_endpoint(v) -> bool:
+        return v[0] == "pcall" and v[1] in (("global", "isinstance"), ("global", "hasattr"), ("global", "type"), ("global", "issubclass")) \
+            and len(v[2]) >= 1 and (v[2][0] == _T_SOCKET or of_endpoint(v[2][0]))
+    k = _strip(k)
+    if of_endpoint(k):
+        return True
+    return k[0] == "cmp" and k[1] in ("is", "eq") and (of_endpoint(k[2]) or of_endpoint(k[3])) \
+        and all(of_endpoint(x) or x[0] in ("global", "const") for x in (k[2], k[3]))
+
+
+def _opt_in_every_path(ctx, top):
+    """
+    Paths of the overlay constructor that complete, on which the overlay asked for anonymity (settings.anonymize / self.anonymize
+    tested truthy), that do not register the request (no set_anonymity(self._prefix, True) on self.endpoint) and on which no type
+    test of self.endpoint failed - the only reason the constructor has for not registering: [(tested facts shown)].  None = undecided.
+    """
+    it = _OptInPaths(ctx, top)
+    try:
+        outs = it.start()
+    except _Und:
+        return None
+    ps = top.params()
+    asked = set()
+    if len(ps) > 1:
+        asked = {("attr", ("param", ps[1]), "anonymize")} | \
+            {("pcall", ("global", "getattr"), (("param", ps[1]), ("const", "anonymize"), d)) for d in (("const", False), ("const", None))}
+    bad = []
+    n = 0
+    for kind, st in outs:
+        if kind != "return":
+            continue
+        facts = [(_strip(k), p) for k, p in st.facts.items()]
+        anon = _strip(it.read_attr(_SELF, "anonymize", st))
+        if not any(p and (k in asked or k == anon) for k, p in facts):
+            continue
+        n += 1
+        if any(type(e) is tuple and e[0] == "SET_ANONYMITY" and e[1] and e[2] == ("const", True) for e in st.effects):
+            continue
+        if any(not p and _endpoint_type_test(k) for k, p in facts):
+            continue
+        bad.append([f"{'' if p else 'not '}{_show(k)}" for k, p in facts][:12])
+    return bad if n else None
 
 
 def _opt_in_paths(ctx, top, want: bool) -> dict:
@@ -3854,6 +4408,16 @@ def rule_opt_in(ctx: Ctx) -> None:  # noqa: C901, PLR0912, PLR0915
                   "an overlay that asked for anonymity is not registered with the tunnel endpoint for its own prefix")
     # every path with settings.anonymize and a TunnelEndpoint reaches the call
     ctx.check(any(j[2] for j in judged.values()), "opt-in", init, init.node, "opt-in call present")
+    missing = _opt_in_every_path(ctx, init)
+    if missing is None:
+        ctx.note("opt-in: the paths of Community.__init__ could not be enumerated symbolically; only the presence of the opt-in call is checked")
+    else:
+        ctx.check(not missing, "opt-in", init, init.node,
+                  "every completing path of Community.__init__ with settings.anonymize on a TunnelEndpoint registers the request",
+                  "Community.__init__ has a path on which the overlay asked for anonymity and the endpoint is a TunnelEndpoint, yet "
+                  "set_anonymity(self._prefix, True) is not called (the registration depends on something else than the type of the "
+                  "endpoint): the prefix never enters TunnelEndpoint.settings and TunnelEndpoint.send hands every packet of this "
+                  "overlay to the raw socket", missing[0] if missing else None)
     # all set_anonymity(.., False) sites
     n = 0
     off_paths = None
@@ -3931,9 +4495,11 @@ def rule_opt_in(ctx: Ctx) -> None:  # noqa: C901, PLR0912, PLR0915
     nodes = [n for st in good for n in cfgs.nodes_for(st)]
     # no normal completion that skips the store: cutting the store's normal out-edges must disconnect the exit
     ok = bool(good) and others == 0 and cfgs.exit not in cfgs.reach(cut_out_normal=nodes)
-    if not ok or _FORCE_PATHS:
-        # the store may sit behind an alias of the table, in a helper, a loop over a literal ...: decide on symbolic paths
+    if not ok or _FORCE_PATHS or _wrapping_decorators(sa.node):
+        # the store may sit behind an alias of the table, in a helper, a loop over a literal, under a decorator's guard ...: decide on symbolic paths
         ok = _table_symbolic(ctx, te)[0]
+        if ok is None and _wrapping_decorators(sa.node):
+            raise AnalysisError("undecided: TunnelEndpoint.set_anonymity is wrapped by decorators the path analysis cannot enter")
     ctx.check(ok, "opt-in", sa, sa.node, "set_anonymity stores enable under the prefix", "set_anonymity does not record the requested switch")
     # delivery filter
     _delivery_filter(ctx, te.methods["notify_listeners"])
@@ -4117,6 +4683,15 @@ WITNESSES = [
      "new": "        packet = self.create_introduction_request(address, new_style=self.network.is_new_style(address))\n        getattr(self.endpoint, \"endpoint\", self.endpoint).send(address, packet) if False else self.endpoint.endpoint.send(address, packet)"},
     {"name": "opt-in with wrong flag", "file": "ipv8/community.py", "rule": "opt-in",
      "old": "self.endpoint.set_anonymity(self._prefix, True)", "new": "self.endpoint.set_anonymity(self._prefix, False)"},
+    {"name": "opt-in only when a tunnel community is already attached", "file": "ipv8/community.py", "rule": "opt-in",
+     "old": "            if isinstance(self.endpoint, TunnelEndpoint):\n                self.endpoint.set_anonymity(self._prefix, True)",
+     "new": "            if isinstance(self.endpoint, TunnelEndpoint) and self.endpoint.tunnel_community is not None:\n                self.endpoint.set_anonymity(self._prefix, True)"},
+    {"name": "send wrapped by a decorator that also sends raw", "file": EP, "rule": "send-classification",
+     "edits": [
+         {"file": EP, "old": "class TunnelEndpoint(Endpoint):",
+          "new": "def _also_plain(send):\n    def wrapper(self, address, packet):\n        self.endpoint.send(address, packet)\n        send(self, address, packet)\n    return wrapper\n\n\nclass TunnelEndpoint(Endpoint):"},
+         {"file": EP, "old": "    def send(self, address: Address, packet: bytes) -> None:",
+          "new": "    @_also_plain\n    def send(self, address: Address, packet: bytes) -> None:"}]},
     {"name": "set_anonymity ignores enable", "file": EP, "rule": "opt-in",
      "old": "        self.settings[prefix] = enable", "new": "        self.settings[prefix] = enable and bool(self.tunnel_community)"},
     {"name": "set_anonymity records only while a tunnel community is attached", "file": EP, "rule": "opt-in",
